@@ -9,6 +9,7 @@ import (
 	"runtime"
 	"runtime/debug"
 	"time"
+	"verifharness/sctpmem"
 
 	"verifharness/abs"
 	"verifharness/memnet"
@@ -43,6 +44,7 @@ type immutLine struct {
 	Depth     int         `json:"depth"`
 	Size      string      `json:"size"`
 	History   []laterRead `json:"history"`
+	Via       string      `json:"via"`
 	ReadOK    bool        `json:"readok"`
 	MayReject bool        `json:"mayreject"` // the wire image is one the reader may refuse; if it does there is nothing to retain
 	Before    string      `json:"before"`
@@ -86,6 +88,8 @@ func immutAVPs(kind string, alt bool, plen int) []*diam.AVP {
 			return diam.NewAVP(9011, 0x40, 0, datatype.UTF8String(bytes.Repeat(b('r'), plen)))
 		case "unknownN":
 			return diam.NewAVP(7777, 0, 0, datatype.Unknown(bytes.Repeat(b(0x43), plen)))
+		case "pflag": // the P (protected) flag set: legal, rare
+			return diam.NewAVP(9010, 0x60, 0, datatype.OctetString(b(21, 22, 23, 24, 25, 26)))
 		case "utf8300":
 			return diam.NewAVP(9011, 0x40, 0, datatype.UTF8String(bytes.Repeat(b('q'), 300)))
 		case "utf8":
@@ -199,7 +203,18 @@ func snapshot(m *diam.Message) string {
 func runImmut(id int, c *immutCase, dp *dict.Parser) immutLine {
 	l := immutLine{Ev: "immut", ID: id, Kind: c.Kind, Depth: c.Depth, Size: c.Size, History: c.History, After: []string{}}
 	l.MayReject = immutRaw(c.Kind, false) != nil
-	m0, err := diam.ReadMessage(bytes.NewReader(immutWire(c, c.Size, false, dp)), dp)
+	var m0 *diam.Message
+	var err error
+	if id%4 == 1 {
+		// the retained message arrives on a multi-stream association (its own branch of the reader)
+		l.Via = "sctp"
+		as := sctpmem.New()
+		as.Feed(3, immutWire(c, c.Size, false, dp))
+		m0, err = diam.ReadMessage(diam.NewSCTPConnVerif(as), dp)
+		defer as.Close()
+	} else {
+		m0, err = diam.ReadMessage(bytes.NewReader(immutWire(c, c.Size, false, dp)), dp)
+	}
 	if err != nil {
 		l.Detail = err.Error()
 		return l
